@@ -29,7 +29,8 @@ def pde_setup(ctx):
     env = [None, True, False][ctx.choose(3, "env")]
     default_env = ctx.choose(2, "self._default_env") == 1
     pm.rec.attrs["_default_env"] = default_env
-    environ = [None, Rec("dict", attrs={"tag": "given-environ"})][ctx.choose(2, "environ-given")]
+    # the environment mapping given by the caller is used as it is - also when it is empty (an empty mapping means: no variables, not "use the process environment")
+    environ = [None, Rec("dict", attrs={"tag": "given-environ"}), Rec("dict", attrs={"tag": "given-environ(empty)"}, methods={"__bool__": lambda c, s_, a, k: False, "__len__": lambda c, s_, a, k: 0})][ctx.choose(3, "environ-given")]
     calls = {"Namespace": lambda c, a, k: cfg("EMPTY")}
     consts = {"os.environ": Rec("dict", attrs={"tag": "os.environ"})}
     return Setup(env={"self": pm.rec, "defaults": defaults, "env": env, "environ": environ}, calls=calls, consts=consts, cms={"parser_context": noop_cm("parser_context")},
@@ -558,3 +559,8 @@ UNITS.append(Unit("C04", "jsonargparse._core:ArgumentParser.parse_env", pe_setup
 
 from contracts.check_type import typehint_call_unit  # noqa: E402
 UNITS.append(typehint_call_unit("C04"))
+
+
+# `--key+=v` (append) and `--key.item=v` (one item) are argv items that build on the value accumulated so far without writing into it
+from contracts.adapt_arms import arms_units as _arms_units  # noqa: E402
+UNITS += [u for u in _arms_units("C04") if u.label in ("List:append-and-sub-options", "Dict:item-option")]
